@@ -22,6 +22,7 @@ type Opt struct {
 	NoExt       bool // omit extension slots
 	MaxNested   int  // cap on nested alphabet size per message-typed field (0 = 24)
 	NoNegZero   bool
+	Fill        bool // add FILL slots that set all required fields of a message
 }
 
 var (
